@@ -25,7 +25,7 @@ RULE = ("(A) Delta(name, point, log_density) with number / batched tensor / lazy
         "sample inputs, seed); non-trivial when a mass/affine identity was checked on >=2 elements; distinct by that tuple + data hash")
 ASSUMPTIONS = ["numpy global RNG is the numpy backend's only random state", "non-unit-mass Deltas are used for point evaluation only"]
 MIN_NONTRIVIAL = {"quick": 3000, "thorough": 30000}
-REQUIRED_COUNTERS = ["delta-point:ok", "delta-reduce:ok", "delta-integrate:ok", "tensor-sample:mass-ok", "tensor-sample:reseed-ok", "gaussian-sample:mass-ok", "gaussian-reparam:affine-ok"]
+REQUIRED_COUNTERS = ["delta-point:ok", "delta-reduce:ok", "delta-integrate:ok", "delta-integrate-weighted:ok", "tensor-sample:mass-ok", "tensor-sample:reseed-ok", "gaussian-sample:mass-ok", "gaussian-reparam:affine-ok"]
 
 
 def plan(tier, seed):
@@ -138,6 +138,30 @@ def part_delta(rng, res, riders, i):
                               case={"f": f_int.data, "point": pidx, "form": form})
             else:
                 res.count("%s:ok" % lab)
+        # a weighted point mass (the form of a sample: Delta + log-weight) as measure: integrating over the Delta's variable only, and
+        # over a batch / particle input as well, is the weighted evaluation at the point
+        wdata = np.round(rng.uniform(-1, 1, size=(bsz,)), 2)
+        w = Tensor(wdata, OrderedDict(b=Bint[bsz]))
+        per_b = np.exp(wdata) * want
+        for label, rv, expect in (("delta-integrate-weighted", frozenset([Variable("v", Bint[n])]), per_b),
+                                  ("delta-integrate-weighted", frozenset([Variable("v", Bint[n]), Variable("b", Bint[bsz])]), per_b.sum())):
+            for order in (0, 1):
+                try:
+                    measure = (dp + w) if order == 0 else (w + dp)
+                    r = funsor.to_funsor(Integrate(measure, f_int, rv))
+                    if r.inputs and set(r.inputs) != {"b"}:
+                        res.count("%s:lazy" % label)
+                        continue
+                    got = r.data if r.inputs else float(r.data)
+                except Exception as e:
+                    res.count("%s:declined:%s" % (label, type(e).__name__))
+                    continue
+                if not close(got, expect):
+                    res.violation("delta:%s" % label, "Integrate(Delta(v=%s)+w, f, %s) gives %s, expected %s" % (
+                        pidx.tolist() if form == "batched" else int(pidx[0]), sorted(v.name for v in rv), short(np.asarray(got).tolist()), short(np.asarray(expect).tolist())),
+                        case={"f": f_int.data, "point": pidx, "form": form, "w": wdata})
+                else:
+                    res.count("%s:ok" % label)
     # real-valued variable: f is a lazy function of a real x
     xpt = np.round(rng.uniform(-1, 1, size=()), 2)
     fx = Variable("x", Real) * 2.0 + Tensor(np.round(rng.uniform(-1, 1, size=(bsz,)), 2), OrderedDict(b=Bint[bsz]))
